@@ -227,42 +227,61 @@ def buildCfg (nodes : List Node) (predefined : Option (List (W String))) : Excep
 def findLabel (g : Cfg) (l : String) : Option Nat :=
   (List.range g.nodes.size).find? fun i => nameIn (g.get i).labels l
 
-def directions (g0 : Cfg) : Except CfgErr Cfg := do
-  let mut g := g0
-  let mut prev : Option Nat := none
-  for i in List.range g0.nodes.size do
-    let n := (g.get i).node
+/-- One iteration of the `NodeDirectionPass` loop: the jump edge of node `i`, the fall-through
+    edge from the previous node, and the new "previous node". -/
+def dirStep (st : Cfg × Option Nat) (i : Nat) : Except CfgErr (Cfg × Option Nat) :=
+  let g := st.1
+  let n := (g.get i).node
+  let jumped : Except CfgErr Cfg :=
     match n.jumpsTo with
     | some l =>
       match findLabel g l.val with
-      | some j => g := g.addEdge i j
-      | none => throw .unexpectedError
-    | none => pure ()
-    match prev with
-    | some p => g := g.addEdge p i
-    | none => pure ()
-    prev := if n.isReturn || n.isUnconditionalJump then none else some i
-  pure g
+      | some j => .ok (g.addEdge i j)
+      | none => .error .unexpectedError
+    | none => .ok g
+  match jumped with
+  | .error e => .error e
+  | .ok g1 =>
+    let g2 := match st.2 with
+      | some p => g1.addEdge p i
+      | none => g1
+    .ok (g2, if n.isReturn || n.isUnconditionalJump then none else some i)
+
+def dirLoop : List Nat → Cfg × Option Nat → Except CfgErr (Cfg × Option Nat)
+  | [], st => .ok st
+  | i :: rest, st =>
+    match dirStep st i with
+    | .ok st' => dirLoop rest st'
+    | .error e => .error e
+
+def directions (g0 : Cfg) : Except CfgErr Cfg :=
+  match dirLoop (List.range g0.nodes.size) (g0, none) with
+  | .ok st => .ok st.1
+  | .error e => .error e
 
 /-! ### `EliminateDeadCodeDirectionsPass` (one sweep: the `old != nodes` test compares node
     identities, which never change) -/
 
 def removeNat (x : Nat) (l : List Nat) : List Nat := l.filter (· != x)
 
-def deadCode (g0 : Cfg) : Cfg := Id.run do
-  let mut g := g0
-  for i in List.range g0.nodes.size do
-    let n := (g.get i).node
-    if n.isReturn || n.isAnyEntry || n.mightTerminate then continue
-    if (g.get i).nexts.isEmpty then
-      for p in (g.get i).prevs do
-        g := g.modify p fun m => { m with nexts := removeNat i m.nexts }
-      g := g.modify i fun m => { m with prevs := [] }
-    if (g.get i).prevs.isEmpty then
-      for s in (g.get i).nexts do
-        g := g.modify s fun m => { m with prevs := removeNat i m.prevs }
-      g := g.modify i fun m => { m with nexts := [] }
-  return g
+/-- remove every out-edge of `i` (`for next in nexts { next.remove_prev(i) }; clear_nexts()`) -/
+def Cfg.cutOut (g : Cfg) (i : Nat) : Cfg :=
+  ((g.get i).nexts.foldl (fun g s => g.modify s fun m => { m with prevs := removeNat i m.prevs }) g).modify i
+    fun m => { m with nexts := [] }
+
+/-- remove every in-edge of `i` -/
+def Cfg.cutIn (g : Cfg) (i : Nat) : Cfg :=
+  ((g.get i).prevs.foldl (fun g p => g.modify p fun m => { m with nexts := removeNat i m.nexts }) g).modify i
+    fun m => { m with prevs := [] }
+
+def deadStep (g : Cfg) (i : Nat) : Cfg :=
+  let n := (g.get i).node
+  if n.isReturn || n.isAnyEntry || n.mightTerminate then g
+  else
+    let g1 := if (g.get i).nexts.isEmpty then g.cutIn i else g
+    if (g1.get i).prevs.isEmpty then g1.cutOut i else g1
+
+def deadCode (g : Cfg) : Cfg := (List.range g.nodes.size).foldl deadStep g
 
 /-! ### `EcallTerminationPass` -/
 
@@ -285,14 +304,9 @@ def ecallSignature (n : CNode) : Option (RegSet × RegSet) :=
     | none => none
   | none => none
 
-def ecallTerm (g0 : Cfg) : Cfg := Id.run do
-  let mut g := g0
-  for i in List.range g0.nodes.size do
-    if isProgramExit (g.get i) then
-      for s in (g.get i).nexts do
-        g := g.modify s fun m => { m with prevs := removeNat i m.prevs }
-      g := g.modify i fun m => { m with nexts := [] }
-  return g
+def ecallStep (g : Cfg) (i : Nat) : Cfg := if isProgramExit (g.get i) then g.cutOut i else g
+
+def ecallTerm (g : Cfg) : Cfg := (List.range g.nodes.size).foldl ecallStep g
 
 /-! ### `FunctionMarkupPass`
 
